@@ -46,6 +46,11 @@ theorem keys_filterMap_get (t : Trie α) : t.keys.filterMap (fun s => t.get s) =
     rw [h0, h1, ih0, ih1]
     cases v <;> simp [get, value]
 
+theorem values_mapVals (f : α → α) (t : Trie α) : (t.mapVals f).values = t.values.map f := by
+  induction t with
+  | nil => rfl
+  | node v c0 c1 ih0 ih1 => cases v <;> simp [mapVals, values, ih0, ih1]
+
 theorem mem_values_child {t : Trie α} {c : Bool} {x : α} (h : x ∈ (t.child c).values) : x ∈ t.values := by
   cases t with
   | nil => simp [values] at h
